@@ -671,8 +671,8 @@ def _run_fd_inner(case):
 # live: real Proxy processes in the three modes
 # ==========================================================================
 
-IO_TIMEOUT = 20.0
-SCN_TIMEOUT = 60.0
+IO_TIMEOUT = 12.0
+SCN_TIMEOUT = 40.0
 ORIGIN = {'http': 0, 'echo': 0, 'dead': 0}      # ports, set before the Proxy forks its processes
 STATIC_NAME = 'c17-static.bin'
 STATIC_SIZE = 1536 * 1024 + 17
@@ -1187,8 +1187,14 @@ def _run_config(mode, nw, fs, cases):
             cur = _socket_fds(procs)
             same = same + 1 if cur == base else 0
             base = cur
+        hangs = 0
         for c in cases:
+            if hangs >= 2:
+                # this mode no longer serves connections: do not wait out every remaining scenario
+                out[_key(c)] = ['hang (skipped: the two scenarios before it hung)']
+                continue
             lines = _run_scenario(c, pport, origins)
+            hangs = hangs + 1 if any(ln.endswith(' hang') for ln in lines) else 0
             # descriptor hygiene: every socket of the scenario is closed again in every proxy process
             t_end = time.time() + 3.0
             leak = _socket_fds(procs) - base
